@@ -43,12 +43,14 @@ SERVER_CLOSES = {
     'first3000': ('first', 3000, ''),
     'firstempty': ('first', None, ''),
     'first-long': ('first', 4999, 'r' * 123),
+    'first-braces': ('first', 1000, '{"a": {}} %s {0} }{'),
+    'reply-braces': ('reply', 3999, '{0!r} {} %(x)s', 1),
     'reply1000': ('reply', 1000, 'ok', 0),
     'reply-between': ('reply', 1001, '', 2),
     'replyempty': ('reply', None, '', 1),
 }
 APP_CLOSE_AT = ['never', 'connected', 'ready', 'poll#0', 'text', 'ping', 'closing', 'closed']
-APP_CLOSE_ARGS = [[], [1000, 'done'], [3001, ''], [1001, b'raw'], [None, '']]
+APP_CLOSE_ARGS = [[], [1000, 'done'], [3001, ''], [1001, b'raw'], [None, ''], [4000, '{} {0} %s }{'], [1000, b'{x}']]
 APP_SENDS = {
     'none': {},
     'every': {'*': [['send_text', 's']]},
@@ -70,7 +72,7 @@ def cases(tier, seed, i, n):
                             if tier == 'quick' and len(pre) == 2 and k % 4:
                                 continue
                             yield dict(pre=pre, sc=sc, end=end, at=at, args=APP_CLOSE_ARGS[k % len(APP_CLOSE_ARGS)],
-                                       sends=sends, ct=(None, 2.0)[k % 2], seg=('coalesced', 'perframe', 'bytewise')[k % 3])
+                                       sends=sends, ct=(None, 2.0, 0)[k % 3], seg=('coalesced', 'perframe', 'bytewise')[k % 3])
         if tier == 'thorough':
             yield gen.mark('full product: server pre-sequence (<=2) x server close behaviour x end x close() event x sends')
         rnd = random.Random(seed * 6151 + 8)
@@ -125,8 +127,20 @@ def run_case(case, acc):
             off += len(PRE[p][0])
             cuts.append(off)
     ct = case['ct']
+    ws0 = None
+    if (len(case['pre']) + len(case['at']) + len(case['sc'])) % 4 == 0:
+        # a previous connection on the same object that ended in the middle of its own closing handshake
+        w0 = H.World(H.hs_server([('raw', F(1, b'prev'))]))
+        r0 = H.drive(w0, connect_kwargs=dict(ping_rate=0, poll=1.0, close_timeout=ct), policy=H.TablePolicy({'text': [['close', 1001, 'previous']]}))
+        try:
+            with H.Installed(w0):
+                r0.gen.close()
+        except Exception:   # noqa
+            pass
+        ws0 = r0.ws
+        acc.count2('oracle', 'reconnect_runs')
     w = H.World(H.hs_server(steps), cuts=cuts, horizon=8.0 if ct else 0.0)
-    run = H.drive(w, connect_kwargs=dict(ping_rate=0, poll=1.0, close_timeout=ct), policy=H.TablePolicy(table))
+    run = H.drive(w, ws=ws0, connect_kwargs=dict(ping_rate=0, poll=1.0, close_timeout=ct), policy=H.TablePolicy(table))
     judge(case, run, w, truth, between, scode, sreason, acc)
 
 
